@@ -15,9 +15,20 @@
     first failure, keeping what was written; [atomically] is CacheContext + commit-on-success and
     is applied exactly where the Go code applies it (messages: by baseapp).
 
-    Tax is an input of Send (computed by C15's model, stored on the transfer); transfer limits are
-    C15's and are not modelled.  Attestation voting is C02's: [OExecuted]/[ODeposit] mean "the
-    attestation handler runs once for this claim" (processAttestation). *)
+    Tax is an input of Send (computed by C15's model, stored on the transfer); the transfer-limit
+    decision (UpdateBridgeTransferUsageWithLimit rejects / lets through) is an input of Send too,
+    the limit arithmetic is C15's.  Attestation voting is C02's: [OExecuted]/[ODeposit] mean "the
+    attestation handler runs once for this claim" (processAttestation).
+
+    Round 2: the denom table is state.  [OMapGov] is setDenomToERC20 as the governance paths call
+    it (legacy SetERC20ToDenomProposal handler, MsgSetERC20MappingProposal: no guard at all),
+    [OMapAdmin] is msgServer.SetERC20ToTokenDenom (token admin; refuses a contract that is already
+    bound on that chain).  [OEndBlockFull] is the whole EndBlocker: createBatch, the attestation
+    tally of every active chain (processAttestation for each claim that reached the threshold,
+    then emitObservedEvent), processGasEstimates, cleanupTimedOutBatches, with a second oracle
+    [pf] "the n-th collaborator call PANICS": the panic is caught by EndBlocker's recover, what
+    the all-or-nothing sub-steps completed before it stays, the rest of the block's housekeeping
+    is skipped. *)
 From Coq Require Import List ZArith Bool.
 From Paloma Require Import Gen.C01.
 Import ListNotations.
@@ -41,7 +52,7 @@ Definition shift (f : fault) (m : nat) : fault := fun n => f (m + n)%nat.
 Inductive outcome := Ok | Err.
 
 Record state := mkS {
-  table : list entry;            (* configuration, not changed by bridge operations *)
+  table : list entry;            (* both store indexes of the denom table, newest row first (see [map_set]) *)
   pool : list transfer;          (* store order of the reverse iterator: descending (contract, amount, id) *)
   batches : list batch;          (* descending (contract, nonce) *)
   bal : Z -> Z -> Z;             (* user account, denom *)
@@ -58,6 +69,7 @@ Definition upd (g : Z -> Z) (k v : Z) : Z -> Z := fun x => if x =? k then v else
 Definition upd2 (g : Z -> Z -> Z) (a k v : Z) : Z -> Z -> Z :=
   fun x y => if (x =? a) && (y =? k) then v else g x y.
 
+Definition set_table s tb := mkS tb (pool s) (batches s) (bal s) (escrow s) (comm s) (supply s) (last_tx s) (last_batch s) (refunded s) (burned s).
 Definition set_pool s p := mkS (table s) p (batches s) (bal s) (escrow s) (comm s) (supply s) (last_tx s) (last_batch s) (refunded s) (burned s).
 Definition set_batches s b := mkS (table s) (pool s) b (bal s) (escrow s) (comm s) (supply s) (last_tx s) (last_batch s) (refunded s) (burned s).
 Definition set_bal s b := mkS (table s) (pool s) (batches s) b (escrow s) (comm s) (supply s) (last_tx s) (last_batch s) (refunded s) (burned s).
@@ -120,9 +132,11 @@ Definition atomically (s : state) (r : state * outcome * nat) : state * outcome 
   end.
 
 (** *** MsgSendToRemote -> AddToOutgoingPool.  Collaborator calls: 0 bank.SendCoinsFromAccountToModule,
-    1 EVMKeeper.GetChainInfo. *)
-Definition send_raw (f : fault) (u c d a tax : Z) (s : state) : state * outcome * nat :=
-  if (a <=? 0) || (tax <? 0) then (s, Err, 0%nat) else
+    1 EVMKeeper.GetChainInfo.  [lim] = UpdateBridgeTransferUsageWithLimit refuses the transfer (it
+    runs before anything is written; the usage bookkeeping it updates is C15's state and is rolled
+    back with the transaction when a later step fails). *)
+Definition send_raw (f : fault) (u c d a tax : Z) (lim : bool) (s : state) : state * outcome * nat :=
+  if (a <=? 0) || lim || (tax <? 0) then (s, Err, 0%nat) else
   match erc20_of (table s) c d with
   | None => (s, Err, 0%nat)
   | Some k =>
@@ -259,9 +273,38 @@ Definition deposit_raw (f : fault) (c k : Z) (r : recv) (a : Z) (s : state) : st
       end
   end.
 
-(** *** createBatch (end-blocker): at heights = 0 mod 50, for every table row in store order:
-    GetERC20OfDenom, BuildOutgoingTXBatch(chain, contract, OutgoingTxBatchSize); stops at the first
-    error.  [n] = collaborator calls already made by this end-block. *)
+(** *** the denom table as governance / token admins write it.  setDenomToERC20(c, d, k) overwrites
+    DenomToERC20[c, d] := k and ERC20ToDenom[c, k] := d and deletes nothing (the old reverse entry
+    of a re-mapped denom stays).  With the newest row in front and first-match lookups ([erc20_of],
+    [denom_of]) that is one cons. *)
+Definition map_set (c d k : Z) (s : state) : state := set_table s ((c, d, k) :: table s).
+
+(** msgServer.SetERC20ToTokenDenom.  Call 0: GetChainInfo.  [auth] = the denom is a token-factory
+    denom whose admin is the sender (C16).  The contract must not be bound on that chain yet. *)
+Definition map_admin_raw (f : fault) (c d k : Z) (auth : bool) (s : state) : state * outcome * nat :=
+  if f 0%nat then (s, Err, 1%nat) else
+  if negb auth then (s, Err, 1%nat) else
+  match denom_of (table s) c k with
+  | Some _ => (s, Err, 1%nat)
+  | None => (map_set c d k s, Ok, 1%nat)
+  end.
+
+(** rows of the DenomToERC20 index in store order (key = chain ++ denom; the harness numbers chains
+    and denoms by the byte order of those keys): GetAllERC20ToDenoms *)
+Definition row_lt (a b : entry) : bool :=
+  let '(c1, d1, _) := a in let '(c2, d2, _) := b in (c1 <? c2) || ((c1 =? c2) && (d1 <? d2)).
+Definition row_same (a b : entry) : bool :=
+  let '(c1, d1, _) := a in let '(c2, d2, _) := b in (c1 =? c2) && (d1 =? d2).
+Fixpoint row_insert (e : entry) (l : list entry) : list entry :=
+  match l with
+  | [] => [e]
+  | x :: r => if row_same x e then l else if row_lt e x then e :: l else x :: row_insert e r
+  end.
+Definition d2e_rows (tb : list entry) : list entry := fold_left (fun acc e => row_insert e acc) tb [].
+
+(** *** createBatch (end-blocker): at heights = 0 mod 50, for every row of the DenomToERC20 index in
+    store order: GetERC20OfDenom, BuildOutgoingTXBatch(chain, contract, OutgoingTxBatchSize); stops
+    at the first error.  [n] = collaborator calls already made by this end-block. *)
 Fixpoint create_loop (f : fault) (n : nat) (es : list entry) (now : Z) (s : state) : state * outcome * nat :=
   match es with
   | [] => (s, Ok, n)
@@ -276,7 +319,7 @@ Fixpoint create_loop (f : fault) (n : nat) (es : list entry) (now : Z) (s : stat
       end
   end.
 Definition create_batch (f : fault) (n : nat) (h now : Z) (s : state) : state * outcome * nat :=
-  if h mod batch_period =? 0 then create_loop f n (table s) now s else (s, Ok, n).
+  if h mod batch_period =? 0 then create_loop f n (d2e_rows (table s)) now s else (s, Ok, n).
 
 (** *** cleanupTimedOutBatches: the batch list is read once, then every batch with
     BatchTimeout < block time is cancelled; stops at the first error. *)
@@ -301,8 +344,13 @@ Definition end_block (f : fault) (h now : Z) (s : state) : state * outcome * nat
   let '(s2, _, n2) := sweep f n1 now s1 in
   (s2, Ok, n2).
 
+(** observed claims the end-blocker's tally hands to processAttestation *)
+Inductive event :=
+| EvExecuted (c k n eth : Z)
+| EvDeposit (c k : Z) (r : recv) (a : Z).
+
 Inductive op :=
-| OSend (u c d a tax : Z) (f : fault)
+| OSend (u c d a tax : Z) (lim : bool) (f : fault)
 | OCancel (u i : Z) (f : fault)
 | OBuild (c k max now : Z) (f : fault)
 | OCancelBatch (k n : Z) (f : fault)
@@ -312,13 +360,121 @@ Inductive op :=
 | OCreateBatch (h now : Z) (f : fault)
 | OSweep (now : Z) (f : fault)
 | OEndBlock (h now : Z) (f : fault)
-| OGov.   (* governance changes the bridge tax rate / exemption list (or limits) of a denom: the
-             settings live outside the bridge's fund state; what a pending transfer owes was fixed
-             when it was sent ([t_tax]) *)
+| OGov    (* governance changes the bridge tax rate / exemption list or the transfer limit of a
+             denom: the settings live outside the bridge's fund state; what a pending transfer
+             owes was fixed when it was sent ([t_tax]) *)
+| OMapGov (c d k : Z)                             (* setDenomToERC20 through a governance path: no guard *)
+| OMapAdmin (c d k : Z) (auth : bool) (f : fault) (* msgServer.SetERC20ToTokenDenom *)
+| OEndBlockFull (h now : Z) (groups : list (list event)) (ests : list (Z * Z * Z)) (f pf : fault).
+
+(** *** the whole EndBlocker, with panics.  [eb] threads the state, the number of collaborator
+    calls made so far in this block, the all-or-nothing sub-steps run so far (ghost trace) and
+    whether a panic has unwound to EndBlocker's recover (then nothing else runs). *)
+Record eb := mkEB { eb_s : state; eb_n : nat; eb_tr : list op; eb_dead : bool }.
+
+Definition either (f pf : fault) : fault := fun i => f i || pf i.
+
+(** index (relative to [n]) of the first of the [m] calls [n .. n+m-1] that panics *)
+Fixpoint first_panic (pf : fault) (n m : nat) : option nat :=
+  match m with
+  | O => None
+  | S m' => if pf n then Some O else option_map S (first_panic pf (S n) m')
+  end.
+
+(** One sub-step that runs on its own cached context ([runner g s] = what the sub-step does under
+    the fault oracle [g]; [mk g] = the same thing as an operation, for the trace).  The sub-step is
+    run with panicking calls counted as failing ones; if one of the calls it made panics, the
+    sub-step's cached context is dropped (after "fix: do not commit a half-done batch change when
+    a collaborator panics"; processAttestation always had an explicit commit), i.e. it has no
+    effect, and the panic unwinds to EndBlocker's recover. *)
+Definition eb_sub (f pf : fault) (runner : fault -> state -> state * outcome * nat) (mk : fault -> op)
+                  (x : eb) : eb * outcome :=
+  if eb_dead x then (x, Err) else
+  let g := shift (either f pf) (eb_n x) in
+  let '(s', out, m) := runner g (eb_s x) in
+  match first_panic pf (eb_n x) m with
+  | Some i => (mkEB (eb_s x) (eb_n x + S i) (eb_tr x) true, Err)
+  | None => (mkEB s' (eb_n x + m) (eb_tr x ++ [mk g]) false, out)
+  end.
+
+(** a collaborator call made by the end-blocker's own code (emitObservedEvent -> GetChainInfo) *)
+Definition eb_call (f pf : fault) (x : eb) : eb * bool :=
+  if eb_dead x then (x, false) else
+  let n := eb_n x in
+  if pf n then (mkEB (eb_s x) (S n) (eb_tr x) true, false)
+  else (mkEB (eb_s x) (S n) (eb_tr x) false, negb (f n)).
+
+Fixpoint eb_create (f pf : fault) (es : list entry) (now : Z) (x : eb) : eb * outcome :=
+  match es with
+  | [] => (x, Ok)
+  | (c, d, _) :: r =>
+      if eb_dead x then (x, Err) else
+      match erc20_of (table (eb_s x)) c d with
+      | None => (x, Err)
+      | Some k =>
+          match eb_sub f pf (fun g s => build g c k batch_size now s) (fun g => OBuild c k batch_size now g) x with
+          | (x1, Ok) => eb_create f pf r now x1
+          | (x1, Err) => (x1, Err)
+          end
+      end
+  end.
+
+Definition ev_run (e : event) (g : fault) (s : state) : state * outcome * nat :=
+  match e with
+  | EvExecuted c k n eth => atomically s (executed_raw g c k n eth s)
+  | EvDeposit c k r a => atomically s (deposit_raw g c k r a s)
+  end.
+Definition ev_op (e : event) (g : fault) : op :=
+  match e with
+  | EvExecuted c k n eth => OExecuted c k n eth g
+  | EvDeposit c k r a => ODeposit c k r a g
+  end.
+
+(** attestationTally of one chain: TryAttestation = processAttestation (the handler's error is
+    logged and swallowed), then emitObservedEvent; an error of the latter ends this chain's tally
+    for this block *)
+Fixpoint eb_tally (f pf : fault) (evs : list event) (x : eb) : eb :=
+  match evs with
+  | [] => x
+  | e :: r =>
+      let (x1, _) := eb_sub f pf (ev_run e) (ev_op e) x in
+      let (x2, ok) := eb_call f pf x1 in
+      if ok then eb_tally f pf r x2 else x2
+  end.
+
+(** processGasEstimates: [ests] = the estimates the election (C04) produced, in batch store order *)
+Fixpoint eb_gas (f pf : fault) (ests : list (Z * Z * Z)) (x : eb) : eb :=
+  match ests with
+  | [] => x
+  | (k, n, est) :: r =>
+      let (x1, _) := eb_sub f pf (fun g s => atomically s (set_gas_raw g k n est s)) (fun g => OSetGas k n est g) x in
+      eb_gas f pf r x1
+  end.
+
+Fixpoint eb_sweep (f pf : fault) (bs : list batch) (now : Z) (x : eb) : eb * outcome :=
+  match bs with
+  | [] => (x, Ok)
+  | b :: r =>
+      if b_timeout b <? now then
+        match eb_sub f pf (fun g s => cancel_batch g (b_contract b) (b_nonce b) s)
+                          (fun g => OCancelBatch (b_contract b) (b_nonce b) g) x with
+        | (x1, Ok) => eb_sweep f pf r now x1
+        | (x1, Err) => (x1, Err)
+        end
+      else eb_sweep f pf r now x
+  end.
+
+Definition end_block_full (f pf : fault) (h now : Z) (groups : list (list event)) (ests : list (Z * Z * Z))
+                          (s : state) : eb :=
+  let x0 := mkEB s 0%nat [] false in
+  let x1 := if h mod batch_period =? 0 then fst (eb_create f pf (d2e_rows (table s)) now x0) else x0 in
+  let x2 := fold_left (fun x evs => eb_tally f pf evs x) groups x1 in
+  let x3 := eb_gas f pf ests x2 in
+  fst (eb_sweep f pf (batches (eb_s x3)) now x3).
 
 Definition step3 (s : state) (o : op) : state * outcome * nat :=
   match o with
-  | OSend u c d a tax f => atomically s (send_raw f u c d a tax s)        (* baseapp: message in a transaction *)
+  | OSend u c d a tax lim f => atomically s (send_raw f u c d a tax lim s) (* baseapp: message in a transaction *)
   | OCancel u i f => atomically s (cancel_raw f u i s)                    (* idem *)
   | OBuild c k max now f => build f c k max now s
   | OCancelBatch k n f => cancel_batch f k n s
@@ -329,6 +485,10 @@ Definition step3 (s : state) (o : op) : state * outcome * nat :=
   | OSweep now f => sweep f 0%nat now s
   | OEndBlock h now f => end_block f h now s
   | OGov => (s, Ok, 0%nat)
+  | OMapGov c d k => (map_set c d k s, Ok, 0%nat)
+  | OMapAdmin c d k auth f => atomically s (map_admin_raw f c d k auth s) (* message in a transaction *)
+  | OEndBlockFull h now groups ests f pf =>
+      let x := end_block_full f pf h now groups ests s in (eb_s x, Ok, eb_n x)
   end.
 Definition step (s : state) (o : op) : state * outcome := fst (step3 s o).
 Definition run (s : state) (ops : list op) : state := fold_left (fun s o => fst (step s o)) ops s.
@@ -339,12 +499,33 @@ Definition init (tb : list entry) (b0 : Z -> Z -> Z) (sup0 : Z -> Z) : state :=
 (** the operations the Go code runs all-or-nothing *)
 Definition atomic_op (o : op) : bool :=
   match o with
-  | OCreateBatch _ _ _ | OSweep _ _ | OEndBlock _ _ _ => false
+  | OCreateBatch _ _ _ | OSweep _ _ | OEndBlock _ _ _ | OEndBlockFull _ _ _ _ _ _ => false
   | _ => true
   end.
 
+(** the all-or-nothing sub-steps end-of-block housekeeping is made of *)
+Definition sub_op (o : op) : bool :=
+  match o with
+  | OBuild _ _ _ _ _ | OCancelBatch _ _ _ | OSetGas _ _ _ _ | OExecuted _ _ _ _ _ | ODeposit _ _ _ _ _ => true
+  | _ => false
+  end.
+
+(** the guard under which governance may write the denom table while transfers are pending: the
+    contract is not bound to ANOTHER denom on that chain (msgServer.SetERC20ToTokenDenom enforces
+    "not bound at all"; the governance paths enforce nothing) *)
+Definition gov_ok (s : state) (o : op) : bool :=
+  match o with
+  | OMapGov c d k => match denom_of (table s) c k with None => true | Some d' => d' =? d end
+  | _ => true
+  end.
+Fixpoint guarded (s : state) (ops : list op) : bool :=
+  match ops with
+  | [] => true
+  | o :: r => gov_ok s o && guarded (fst (step s o)) r
+  end.
+
 (** *** what the history says was attested (for the supply theorem) *)
-Definition dep_amount (s : state) (o : op) (out : outcome) (d : Z) : Z :=
+Definition dep_amount1 (s : state) (o : op) (out : outcome) (d : Z) : Z :=
   match o, out with
   | ODeposit c k _ a _, Ok =>
       match denom_of (table s) c k with
@@ -360,7 +541,7 @@ Definition contrib (tb : list entry) (d : Z) (t : transfer) : Z :=
   end.
 Definition sum_for (tb : list entry) (d : Z) (l : list transfer) : Z :=
   fold_right (fun t acc => contrib tb d t + acc) 0 l.
-Definition exe_amount (s : state) (o : op) (out : outcome) (d : Z) : Z :=
+Definition exe_amount1 (s : state) (o : op) (out : outcome) (d : Z) : Z :=
   match o, out with
   | OExecuted _ k n _ _, Ok =>
       match find_batch k n (batches s) with
@@ -368,6 +549,27 @@ Definition exe_amount (s : state) (o : op) (out : outcome) (d : Z) : Z :=
       | None => 0
       end
   | _, _ => 0
+  end.
+Fixpoint deposits_of1 (s : state) (ops : list op) (d : Z) : Z :=
+  match ops with
+  | [] => 0
+  | o :: r => let (s', out) := step s o in dep_amount1 s o out d + deposits_of1 s' r d
+  end.
+Fixpoint executed_of1 (s : state) (ops : list op) (d : Z) : Z :=
+  match ops with
+  | [] => 0
+  | o :: r => let (s', out) := step s o in exe_amount1 s o out d + executed_of1 s' r d
+  end.
+(** a whole end-block contributes what the attestation handlers it ran contributed *)
+Definition dep_amount (s : state) (o : op) (out : outcome) (d : Z) : Z :=
+  match o with
+  | OEndBlockFull h now groups ests f pf => deposits_of1 s (eb_tr (end_block_full f pf h now groups ests s)) d
+  | _ => dep_amount1 s o out d
+  end.
+Definition exe_amount (s : state) (o : op) (out : outcome) (d : Z) : Z :=
+  match o with
+  | OEndBlockFull h now groups ests f pf => executed_of1 s (eb_tr (end_block_full f pf h now groups ests s)) d
+  | _ => exe_amount1 s o out d
   end.
 Fixpoint deposits_of (s : state) (ops : list op) (d : Z) : Z :=
   match ops with
@@ -387,6 +589,6 @@ Definition batch_ids (s : state) : list Z := map t_id (flat_map b_txs (batches s
 Definition accepted (s : state) (i : Z) : Prop := 1 <= i <= last_tx s.
 Definition occ (l : list Z) (i : Z) : nat := count_occ Z.eq_dec l i.
 
-(** the table's two indexes agree (one contract per (chain, denom), one denom per (chain, contract)) *)
+(** the table's two indexes agree: what DenomToERC20 says about (chain, denom) ERC20ToDenom says back *)
 Definition table_wf (tb : list entry) : Prop :=
   forall c d k, erc20_of tb c d = Some k -> denom_of tb c k = Some d.
